@@ -59,9 +59,10 @@ func (s oset) list() []string {
 func single(o origin) oset { return oset{o: true} }
 
 type summary struct {
-	writesRecv  bool
-	writesParam map[int]bool
-	returns     []oset // per result index (pointer-like results only; others empty)
+	writesRecv    bool
+	writesParam   map[int]bool
+	returns       []oset       // per result index (pointer-like results only; others empty)
+	capturesParam map[int]bool // a pointer reachable from parameter i is stored into an object that outlives the call
 }
 
 type site struct {
@@ -561,6 +562,13 @@ func (a *fnAnalysis) run() {
 	ast.Inspect(a.fd.Body, func(n ast.Node) bool {
 		switch v := n.(type) {
 		case *ast.AssignStmt:
+			if len(v.Lhs) == len(v.Rhs) {
+				for i, l := range v.Lhs {
+					if _, isStore, _ := a.storeTarget(l); isStore && pointerLike(info.TypeOf(v.Rhs[i])) {
+						a.capture(v, v.Rhs[i])
+					}
+				}
+			}
 			for _, l := range v.Lhs {
 				tgt, isStore, isGlobalVar := a.storeTarget(l)
 				if !isStore {
@@ -585,7 +593,39 @@ func (a *fnAnalysis) run() {
 					a.sum.returns = append(a.sum.returns, oset{})
 				}
 				if pointerLike(info.TypeOf(res)) {
-					a.sum.returns[i].union(a.originOf(res))
+					ro := a.originOf(res)
+					// a returned local struct carries its field taints
+					if id, ok := res.(*ast.Ident); ok {
+						if obj, ok := info.Uses[id].(*types.Var); ok {
+							pfx := fmt.Sprintf("%p.", obj)
+							for k, fo := range a.fenv {
+								if strings.HasPrefix(k, pfx) {
+									for x := range fo {
+										if x != "fresh" {
+											ro.add(x)
+										}
+									}
+								}
+							}
+						}
+					}
+					if ue, ok := res.(*ast.UnaryExpr); ok && ue.Op == token.AND {
+						if id, ok := ue.X.(*ast.Ident); ok {
+							if obj, ok := info.Uses[id].(*types.Var); ok {
+								pfx := fmt.Sprintf("%p.", obj)
+								for k, fo := range a.fenv {
+									if strings.HasPrefix(k, pfx) {
+										for x := range fo {
+											if x != "fresh" {
+												ro.add(x)
+											}
+										}
+									}
+								}
+							}
+						}
+					}
+					a.sum.returns[i].union(ro)
 				}
 			}
 			if len(v.Results) == 0 && a.fd.Type.Results != nil {
@@ -724,6 +764,35 @@ func (a *fnAnalysis) taint(e ast.Expr, o oset) {
 	}
 }
 
+// capture: a pointer-like value is stored into an object that outlives this statement (a store target or a
+// capturing callee).  Pointers to package-level objects must never be captured (a later write through the
+// capturing object would modify the constant); pointers from parameters are recorded in the summary.
+func (a *fnAnalysis) capture(n ast.Node, val ast.Expr) {
+	o := a.originOf(val)
+	globals := oset{}
+	for k := range o {
+		switch {
+		case strings.HasPrefix(string(k), "global:"):
+			globals.add(k)
+		case strings.HasPrefix(string(k), "param:"):
+			i, _ := strconv.Atoi(string(k)[6:])
+			a.sum.capturesParam[i] = true
+		}
+	}
+	if len(globals) > 0 && a.record {
+		name := a.fd.Name.Name
+		if a.fd.Recv != nil && len(a.fd.Recv.List) > 0 {
+			t := a.fd.Recv.List[0].Type
+			if st, ok := t.(*ast.StarExpr); ok {
+				t = st.X
+			}
+			name = a.src(t) + "." + name
+		}
+		sites = append(sites, site{pkg: a.pkg.Types.Name(), fn: name, line: fset.Position(n.Pos()).Line, kind: "capture-global",
+			what: a.src(n), origins: globals.list(), exported: a.fd.Name.IsExported()})
+	}
+}
+
 func (a *fnAnalysis) callWrites(c *ast.CallExpr) {
 	info := a.pkg.TypesInfo
 	if id, ok := c.Fun.(*ast.Ident); ok {
@@ -757,6 +826,9 @@ func (a *fnAnalysis) callWrites(c *ast.CallExpr) {
 		for i := range c.Args {
 			if s.writesParam[i] {
 				a.emit(c, "call-writes-arg"+strconv.Itoa(i), c.Args[i], a.originOf(c.Args[i]))
+			}
+			if s.capturesParam[i] {
+				a.capture(c, c.Args[i])
 			}
 		}
 		return
@@ -812,7 +884,7 @@ func analyse(record bool) bool {
 		pkg := funcPkg[f]
 		sig := f.Type().(*types.Signature)
 		a := &fnAnalysis{pkg: pkg, fd: fd, obj: f, env: map[*types.Var]oset{}, fenv: map[string]oset{}, params: map[*types.Var]int{}, record: record,
-			sum: &summary{writesParam: map[int]bool{}}}
+			sum: &summary{writesParam: map[int]bool{}, capturesParam: map[int]bool{}}}
 		for i := 0; i < sig.Params().Len(); i++ {
 			a.params[sig.Params().At(i)] = i
 		}
@@ -836,6 +908,14 @@ func sameSummary(a, b *summary) bool {
 	}
 	for k := range a.writesParam {
 		if !b.writesParam[k] {
+			return false
+		}
+	}
+	if len(a.capturesParam) != len(b.capturesParam) {
+		return false
+	}
+	for k := range a.capturesParam {
+		if !b.capturesParam[k] {
 			return false
 		}
 	}
@@ -1018,7 +1098,7 @@ func main() {
 		if !ok {
 			die("function %s has no Go body (assembly) and no write summary in gen_effects", f.FullName())
 		}
-		sm := &summary{writesParam: map[int]bool{}}
+		sm := &summary{writesParam: map[int]bool{}, capturesParam: map[int]bool{}}
 		for _, i := range w {
 			sm.writesParam[i] = true
 		}
